@@ -552,6 +552,7 @@ class Execution:
 
 
 class C07Writer(core.Check):
+    state_measure = 'distinct digests of the directory tree observed after a completed or interrupted finalisation'
     id = 'C07F'
     level = 'fault_enumeration'
     world = 'F'
